@@ -1655,7 +1655,7 @@ def run(env: Env) -> Outcome:
     cases.append({"kind": "core", "ops": [["malformed", m] for m in MALFORMED]})
     for _ in range(n_free):
         free_cases.append(gen_free(rng))
-    for _ in range(env.budget(5, 150)):  # drawn last: the streams above stay what they were for a given seed
+    for _ in range(env.budget(5, 60)):  # drawn last: the streams above stay what they were for a given seed
         wcases.append((gen_writers(rng), True))
 
     batches: dict[str, list] = {}
